@@ -60,7 +60,12 @@ def r1_classification(cx):
                    "optional dependencies are appended to deps after all required/group members, unconditionally")
     # self.optional = list(class.optional) then extend(optional)
     odef = [a for a in walk_body(fn.body) if isinstance(a, ast.Assign) and any(U(t) == "self.optional" for t in a.targets)]
-    cx.require(len(odef) == 1 and U(odef[0].value) in ("list(self.__class__.optional)",), odef[0] if odef else fn,
+    okopt = len(odef) == 1 and U(odef[0].value) in ("list(self.__class__.optional)",) and \
+        any(U(c.func.value) == "self.optional" and [U(a) for a in c.args] in (["optional"], ["list(optional)"]) and not guard_texts(c) for c in find_calls(fn.body, attr="extend"))
+    # or built in one expression: class-level ones first, then the decorator's
+    okopt = okopt or (len(odef) == 1 and isinstance(odef[0].value, ast.BinOp) and isinstance(odef[0].value.op, ast.Add) and U(odef[0].value.left) in ("list(self.__class__.optional)", "self.__class__.optional")
+                      and U(odef[0].value.right) in ("optional", "list(optional)") and not guard_texts(odef[0]))
+    cx.require(okopt, odef[0] if odef else fn,
                "class-level optional dependencies come first in self.optional", construct=short(odef[0]) if odef else "(no self.optional assignment)")
     # dependencies computed from deps after everything
     dd = [a for a in walk_body(fn.body) if isinstance(a, ast.Assign) and any(U(t) == "self.dependencies" for t in a.targets)]
